@@ -23,7 +23,7 @@ fn trailer(b: &[u8]) -> u32 {
 
 // ---- O16.1-6: scalar frames, real CRC ------------------------------------------------------
 
-//@h props=C16,C07 tier=quick timeout=300 role=codec-roundtrip
+//@h props=C16,C07 tier=quick timeout=300 role=codec-roundtrip cbmc=--max-field-sensitivity-array-size+512
 //@fn Frame::write, Frame::read, write_handshake_syn_ack, read_handshake_syn_ack_payload, crc::compute
 //@bound none on fields (5 x u32 any); frame length fixed by the format (25 bytes)
 //@assume crc::compute replaced by an uninterpreted constant function (glue asserted: trailer == compute(prefix), big-endian)
@@ -87,7 +87,7 @@ fn o16_3_roundtrip_small_scalar_frames() {
     }
 }
 
-//@h props=C16,C07,C18 tier=quick timeout=600 role=codec-roundtrip
+//@h props=C16,C07,C18 tier=quick timeout=600 role=codec-roundtrip cbmc=--max-field-sensitivity-array-size+512
 //@fn Frame::write, Frame::read, write_handshake_syn, read_handshake_syn_payload
 //@bound none on fields; frame is exactly 1472 bytes
 //@assume crc::compute replaced by an uninterpreted constant function (strength of the CRC is decided separately by the crc lemmas)
@@ -264,7 +264,7 @@ rt_datagram!(o16_7_roundtrip_datagram_len0, 0, false);
 //@bound one datagram, payload length 63 (last micro length), one symbolic byte at a symbolic offset
 //@assume crc::compute replaced by an uninterpreted constant function
 rt_datagram!(o16_7_roundtrip_datagram_len63, 63, false);
-//@h props=C16,C04 tier=quick timeout=600 role=codec-roundtrip
+//@h props=C16,C04 tier=quick timeout=600 role=codec-roundtrip cbmc=--max-field-sensitivity-array-size+512
 //@fn DataFrameBuilder::{new,add,build,encoded_size,size,count}, read_datagram
 //@bound one datagram, payload length 64 (first small length)
 //@assume crc::compute replaced by an uninterpreted constant function
@@ -300,7 +300,7 @@ rt_datagram!(o16_7_roundtrip_datagram_len1448, 1448, false);
 //@assume crc::compute replaced by an uninterpreted constant function
 rt_datagram!(o16_7_roundtrip_datagram_len1, 1, false);
 
-//@h props=C16 tier=quick timeout=900 role=codec-roundtrip
+//@h props=C16 tier=quick timeout=900 role=codec-roundtrip cbmc=--max-field-sensitivity-array-size+512
 //@fn DataFrameBuilder::{new,add,build}, read_datagram
 //@bound two datagrams in one frame: a 2-byte micro datagram (leads fixed to 5/9 so that the class and hence the offset is concrete) followed by a 0-byte fragment (large class, last fragment id >= 1); ids, channels, fragment ids, payload bytes any
 //@assume crc::compute replaced by an uninterpreted constant function
